@@ -52,7 +52,7 @@ def main():
         })
     man = {
         'version': 1,
-        'setup_cmd': 'cd lean && lake build QtVerif Driver',
+        'setup_cmd': 'cd lean && lake build',
         'hooks': {
             'guard': 'QTOGGLESERVER_VERIF',
             'enable': 'environment variable QTOGGLESERVER_VERIF=1 (set by ./check); no hook is currently needed in /repo',
